@@ -83,6 +83,7 @@ from vgi_rpc.rpc._wire import (
     _validate_call_signature,
     _validate_params,
     _validate_result,
+    _write_collector_logs,
     _write_error_batch,
     _write_error_stream,
     _write_result_batch,
@@ -1204,8 +1205,10 @@ class RpcServer:
             status = "error"
             error_type = _log_method_error(protocol_name, info.name, self._server_id, exc)
             error_message = str(exc)
-            with contextlib.suppress(BrokenPipeError, OSError):
-                _write_error_stream(transport.writer, _EMPTY_SCHEMA, exc, server_id=self._server_id)
+            with contextlib.suppress(BrokenPipeError, OSError), new_ipc_stream(transport.writer, _EMPTY_SCHEMA) as w:
+                # logs the method emitted before failing travel ahead of the error
+                sink.flush_contents(w, _EMPTY_SCHEMA)
+                _write_error_batch(w, _EMPTY_SCHEMA, exc, server_id=self._server_id)
             self._discard_rejected_stream_input(transport, info, shm=shm)
             return
         finally:
@@ -1246,6 +1249,7 @@ class RpcServer:
         input_reader = ValidatedReader(ipc.open_stream(transport.reader), self._ipc_validation)
 
         prev_input: AnnotatedBatch | None = None
+        failed_out: OutputCollector | None = None
         try:
             with new_ipc_stream(transport.writer, output_schema) as output_writer:
                 sink.flush_contents(output_writer, output_schema)
@@ -1323,9 +1327,11 @@ class RpcServer:
                             kind=self._transport_kind,
                             implementation=self._impl,
                         )
+                        failed_out = out
                         state.process(ab_in, out, process_ctx)
                         if not out.finished:
                             out.validate()
+                        failed_out = None
                         _flush_collector(output_writer, out, self._external_config, shm=shm)
                         if out.finished:
                             break
@@ -1336,6 +1342,7 @@ class RpcServer:
                     error_type = _log_method_error(protocol_name, info.name, self._server_id, exc)
                     error_message = str(exc)
                     with contextlib.suppress(BrokenPipeError, OSError):
+                        _write_collector_logs(output_writer, failed_out)
                         _write_error_batch(output_writer, output_schema, exc, server_id=self._server_id)
                 finally:
                     # Release the final input before closing the output IPC
